@@ -6,7 +6,7 @@ pid, n = sys.argv[1], int(sys.argv[2]) if len(sys.argv) > 2 else 3
 rnd = sys.argv[3] if len(sys.argv) > 3 else ""          # "" = first round, "2" = second round ...
 prev = []
 if rnd:
-    for mp in sorted(glob.glob("/verif/seeded/%s-s*/meta.json" % pid)):
+    for mp in sorted(glob.glob("/verif/seeded/%s-*/meta.json" % pid)):
         prev.append("  - " + json.load(open(mp)).get("summary", "")[:300].replace("\n", " "))
 p = [json.loads(l) for l in open('/verif/properties.jsonl') if json.loads(l)['id'] == pid][0]
 wt = "/tmp/sw%s-%s" % (rnd, pid)
